@@ -222,6 +222,11 @@ class BMC:
         for k in range(self.T):
             a, b = self.S[k], self.S[k + 1]
             s.add(self.sch[k] >= 0, self.sch[k] < n)
+            # symmetry breaking: threads running the same program with symbolic names are interchangeable, so thread t takes its first
+            # step only after thread t-1 has taken one (every schedule is a renaming of one of this form)
+            for t in range(1, n):
+                if self.thread_prog[t] == self.thread_prog[t - 1]:
+                    s.add(z3.Implies(self.sch[k] == t, z3.Or([self.sch[j] == t - 1 for j in range(k)] + [z3.BoolVal(False)])))
             steps = []
             en_all = []
             for t in range(n):
